@@ -661,7 +661,7 @@ func runGate(c *mc.Ctx, p params, dir string) {
 		return
 	}
 	tip := chain.Tip()
-	wi := c.Choose(int(tip)+1, "syncer-transaction")
+	wi := c.Choose(int(tip)+2, "syncer-transaction") //nolint:mnd // tip+1: no transaction, the statement itself fails
 	wname := fmt.Sprintf("Reorg(%d)", wi+1)
 	writer := func() {
 		if err := node.Reorg(uint64(wi + 1)); err != nil {
@@ -680,6 +680,30 @@ func runGate(c *mc.Ctx, p params, dir string) {
 		return
 	}
 	at := 1 + c.Choose(positions, "statement-before-which-the-transaction-lands")
+	if wi == int(tip)+1 {
+		// a row read of the query fails (an error that is neither "no rows" nor a cancellation): the query must fail or
+		// still serve a proof that folds to the root
+		_, fired := node.ReadFailsAt(at, func() { pr, perr = t.proof(i, rj) })
+		when := fmt.Sprintf("history %v, %s(%d, root recorded for index %d), statement %d of %d fails", p.Prefix, t.proofCall, i, j, at, positions)
+		c.AddEvals(1)
+		c.NonTrivial()
+		if !fired {
+			c.Witness("gate_positions_not_reached")
+			return
+		}
+		c.Witness("gate_row_reads_that_fail_inside_a_proof_query")
+		if perr != nil {
+			c.Witness("gate_failed_reads_reported_as_errors")
+			c.Obs("%s -> error", when)
+			return
+		}
+		if got := ref.Verify(leaves[i], pr, i); got != rj {
+			c.Failf(t.name+"/"+t.proofCall+"/proof-does-not-verify/a-row-read-failed-inside-the-query", "%s: the query reported no error and served a proof that folds with leaf %s to %s, not to the root %s it was asked for",
+				when, leaves[i].Hex(), got.Hex(), rj.Hex())
+		}
+		c.Obs("%s -> served, verifies", when)
+		return
+	}
 	_, landed, closed := node.ReadWithWriterAt(at, writer, func() { pr, perr = t.proof(i, rj) })
 	when := fmt.Sprintf("history %v, %s(%d, root recorded for index %d), %s lands before statement %d of %d", p.Prefix, t.proofCall, i, j, wname, at, positions)
 	c.AddEvals(1)
